@@ -6,7 +6,8 @@
 (*    opt |-> "none" | "colon" | "yaml", nopt |-> number of options, blanks |-> blank lines   *)
 (*    between the option block / fence line and the body, skip |-> number of sibling          *)
 (*    paragraphs (2 lines each) before the inner construct, first |-> body text on the        *)
-(*    fence line]                                                                             *)
+(*    fence line, post |-> 1 if a sibling paragraph follows the inner construct inside the     *)
+(*    frame, dname |-> "note" | "epigraph" (a quote directive with an attribution line)]       *)
 (* M composes the line the way the code does: token.map (0-based rows of a parse unit) + the  *)
 (* lineno handed to nested_render_text (base) + 1; a directive body is a new parse unit at    *)
 (* position + body_offset (DirSplit), a ::: container at its own line, an included file at    *)
@@ -17,7 +18,8 @@ CONSTANTS Frames,          \* set of frame records
           MaxDepth, Pres, Leaves,
           DevIncludePlusOne,   \* as-built (open finding, pinned by a repository test): included lines are +1
           DevColonNested,      \* as-built before the fix: a ::: directive whose body starts with a ::: fence is +1 inside
-          DevFirstLine         \* as-built (open finding): body text on the fence line gets the next line's number
+          DevFirstLine,        \* as-built (open finding): body text on the fence line gets the next line's number
+          DevRestoreToTop      \* a seeded change: after an include the source is reset to the top-level file
 
 Paths == UNION {[1..n -> Frames] : n \in 0..MaxDepth}
 OptLines(f) == IF f.opt = "none" THEN 0 ELSE IF f.opt = "colon" THEN f.nopt ELSE f.nopt + 2
@@ -25,21 +27,36 @@ IsDir(f) == f.w \in {"btick", "colon"}
 (* DirSplit: the body offset = option lines + one optional leading blank line *)
 BodyOffset(f) == OptLines(f) + (IF f.blanks >= 1 THEN 1 ELSE 0)
 
+LeafHeight(l) == IF l \in {"code", "target"} THEN 3 ELSE 1
+(* physical lines of the construct at depth n (frame n with everything inside it; Len+1 = the leaf) *)
+RECURSIVE Height(_, _, _)
+Height(p, l, n) ==
+  IF n > Len(p) THEN LeafHeight(l)
+  ELSE LET f == p[n] inner == Height(p, l, n + 1) IN
+       CASE f.w \in {"quote", "list"} -> 2 * f.skip + inner + 2 * f.post
+         [] f.w = "inc" -> 2
+         [] f.w = "div" -> 1 + 2 * f.skip + inner + 2 * f.post + 1
+         [] f.first -> 2
+         [] OTHER -> 1 + OptLines(f) + f.blanks + 2 * f.skip + inner + 2 * f.post + (IF f.dname = "epigraph" THEN 2 ELSE 0) + 1
+
 VARIABLES path, pre, leaf,
+          inner,        \* per entered frame: where its inner construct starts [base, row, abs] and the source before it
           k,            \* next frame
           base, row,    \* M: lineno of the current parse unit, 0-based row in it
           src,          \* M: "doc" or the index of the include frame whose file we are in
           abs, ssrc,    \* S: physical line in the current file, and that file
           marks         \* Seq of [what, m (M's line), s (true line), src]: one per frame and one for the leaf
-vars == <<path, pre, leaf, k, base, row, src, abs, ssrc, marks>>
+vars == <<path, pre, leaf, inner, k, base, row, src, abs, ssrc, marks>>
 
 WellFormedPath(p) ==
   /\ \A n \in 1..Len(p) : p[n].first => (n = Len(p) /\ IsDir(p[n]) /\ p[n].opt = "none" /\ p[n].blanks = 0 /\ p[n].skip = 0)
-  /\ \A n \in 1..Len(p) : ~IsDir(p[n]) => (p[n].opt = "none" /\ p[n].nopt = 0 /\ p[n].blanks = 0 /\ ~p[n].first)
+  /\ \A n \in 1..Len(p) : ~IsDir(p[n]) => (p[n].opt = "none" /\ p[n].nopt = 0 /\ p[n].blanks = 0 /\ ~p[n].first /\ p[n].dname = "note")
+  /\ \A n \in 1..Len(p) : p[n].first => (p[n].post = 0 /\ p[n].dname = "note")
+  /\ \A n \in 1..Len(p) : p[n].dname = "epigraph" => p[n].opt = "none"          \* docutils' quote directives take no options
   /\ \A n \in 1..Len(p) : (p[n].opt = "none") = (p[n].nopt = 0)
 Init == /\ path \in {p \in Paths : WellFormedPath(p)} /\ pre \in Pres /\ leaf \in Leaves
         /\ (path # <<>> /\ path[Len(path)].first => leaf = "para")
-        /\ k = 1 /\ base = 0 /\ row = pre /\ src = 0 /\ abs = pre + 1 /\ ssrc = 0 /\ marks = <<>>
+        /\ k = 1 /\ base = 0 /\ row = pre /\ src = 0 /\ abs = pre + 1 /\ ssrc = 0 /\ marks = <<>> /\ inner = <<>>
 
 Mark(what) == [what |-> what, m |-> base + row + 1, s |-> abs, src |-> src, ssrc |-> ssrc]
 
@@ -47,6 +64,7 @@ Mark(what) == [what |-> what, m |-> base + row + 1, s |-> abs, src |-> src, ssrc
 EnterQuoteOrList == /\ k <= Len(path) /\ path[k].w \in {"quote", "list"}
                     /\ marks' = Append(marks, Mark(path[k].w))
                     /\ row' = row + 2 * path[k].skip /\ abs' = abs + 2 * path[k].skip
+                    /\ inner' = Append(inner, [base |-> base, row |-> row', abs |-> abs', osrc |-> src, ossrc |-> ssrc])
                     /\ k' = k + 1 /\ UNCHANGED <<path, pre, leaf, base, src, ssrc>>
 NextStartsWithColon == k < Len(path) /\ path[k + 1].w \in {"colon", "div"}
 EnterDirective ==
@@ -55,31 +73,47 @@ EnterDirective ==
          position == base + row + 1                              \* token_line of the fence
          plus == IF DevColonNested /\ f.w = "colon" /\ f.opt = "none" /\ f.blanks = 0 /\ f.skip = 0 /\ ~f.first /\ NextStartsWithColon
                  THEN 1 ELSE 0                                    \* the "\n" + content trick of render_colon_fence
-     IN /\ marks' = Append(marks, Mark("directive"))
+     IN /\ marks' = Append(marks, Mark(IF f.dname = "epigraph" THEN "quote-directive" ELSE "directive"))
         /\ IF f.first                                                  \* the fence line itself is body row 0
            THEN /\ base' = (position - 1) + (IF DevFirstLine THEN 1 ELSE 0)  \* as built: rendered at position + 0, i.e. one line late
                 /\ row' = 0
            ELSE /\ base' = position + BodyOffset(f) + plus             \* MockState.nested_parse: _lineno + input_offset
                 /\ row' = (IF f.blanks >= 1 THEN f.blanks - 1 ELSE 0) + 2 * f.skip
         /\ abs' = IF f.first THEN abs ELSE abs + 1 + OptLines(f) + f.blanks + 2 * f.skip
+  /\ inner' = Append(inner, [base |-> base', row |-> row', abs |-> abs', osrc |-> src, ossrc |-> ssrc])
   /\ k' = k + 1 /\ UNCHANGED <<path, pre, leaf, src, ssrc>>
 EnterDiv == /\ k <= Len(path) /\ path[k].w = "div"
             /\ marks' = Append(marks, Mark("container"))
             /\ base' = base + row + 1 /\ row' = 2 * path[k].skip              \* nested_render_text(content, token_line)
             /\ abs' = abs + 1 + 2 * path[k].skip
+            /\ inner' = Append(inner, [base |-> base', row |-> row', abs |-> abs', osrc |-> src, ossrc |-> ssrc])
             /\ k' = k + 1 /\ UNCHANGED <<path, pre, leaf, src, ssrc>>
 EnterInclude == /\ k <= Len(path) /\ path[k].w = "inc"
                 /\ marks' = marks                                             \* (an include leaves no node of its own)
                 /\ base' = IF DevIncludePlusOne THEN 1 ELSE 0                 \* nested_render_text(text, startline [+ 1])
                 /\ row' = 2 * path[k].skip /\ src' = k
                 /\ abs' = 1 + 2 * path[k].skip /\ ssrc' = k
+                /\ inner' = Append(inner, [base |-> base', row |-> row', abs |-> abs', osrc |-> src, ossrc |-> ssrc])
                 /\ k' = k + 1 /\ UNCHANGED <<path, pre, leaf>>
 Leaf == /\ k = Len(path) + 1
         /\ marks' = Append(marks, Mark(leaf))
-        /\ k' = k + 1 /\ UNCHANGED <<path, pre, leaf, base, row, src, abs, ssrc>>
-Next == EnterQuoteOrList \/ EnterDirective \/ EnterDiv \/ EnterInclude \/ Leaf
+        /\ k' = k + 1 /\ UNCHANGED <<path, pre, leaf, inner, base, row, src, abs, ssrc>>
+(* leaving the frames again, innermost first: the sibling paragraph after the inner construct (same   *)
+(* parse unit as the inner construct), and the restore of the document source after an include      *)
+Exit == /\ k > Len(path) + 1 /\ k <= 2 * Len(path) + 1
+        /\ LET n == 2 * Len(path) + 2 - k            \* frame being left
+               f == path[n]
+               h == Height(path, leaf, n + 1)
+               i == inner[n]
+           IN /\ marks' = IF f.post = 1
+                           THEN Append(marks, [what |-> "after", m |-> i.base + i.row + h + 1 + 1, s |-> i.abs + h + 1, src |-> src, ssrc |-> ssrc])
+                           ELSE marks
+              /\ src' = IF f.w = "inc" THEN (IF DevRestoreToTop THEN 0 ELSE i.osrc) ELSE src
+              /\ ssrc' = IF f.w = "inc" THEN i.ossrc ELSE ssrc
+        /\ k' = k + 1 /\ UNCHANGED <<path, pre, leaf, inner, base, row, abs>>
+Next == EnterQuoteOrList \/ EnterDirective \/ EnterDiv \/ EnterInclude \/ Leaf \/ Exit
 Spec == Init /\ [][Next]_vars /\ WF_vars(Next)
-Done == k = Len(path) + 2
+Done == k = 2 * Len(path) + 2
 
 (************************************ S ************************************************)
 TrueLines == \A n \in 1..Len(marks) : marks[n].m = marks[n].s /\ marks[n].src = marks[n].ssrc
